@@ -19,6 +19,13 @@ class ConstraintOverrideRollbackVisitor(ConstraintOverrideVisitor):
         v = ConstraintOverrideRollbackVisitor()
         m.accept(v)
         
+    def visit_composite_field(self, f):
+        super().visit_composite_field(f)
+        # A referenced dynamic constraint is expanded in place as well 
+        # (eg a foreach inside it): roll those expansions back too
+        for c in f.constraint_dynamic_model_l:
+            c.accept(self)
+        
     def visit_constraint_override(self, c : ConstraintOverrideModel):
         c.depth -= 1
         if c.depth <= 0:
